@@ -1,4 +1,10 @@
 import Peppi.Props.C16
 #print axioms Peppi.Props.C16.readMap_enc
 #print axioms Peppi.Props.C16.peppiRead_written
+#print axioms Peppi.Props.C16.unescStr_esc
+#print axioms Peppi.Props.C16.parseNatAcc_natDec
+#print axioms Peppi.Props.C16.pVal_json
+#print axioms Peppi.Props.C16.pEntries_json
+#print axioms Peppi.Props.C16.parseMeta_json
+#print axioms Peppi.Props.C16.slppRead_written_json
 #print axioms Peppi.Props.C16.writeMap_enc
